@@ -84,7 +84,19 @@ def g_models(build):
         k = D(I, a[0])
         if isinstance(k, FE) and not k.is_const(): return Agg('ark_ff::BigInt', [LimbsOf(k)])
         return NotImplemented
+    def m_is_identity(I, fr, fn, a):
+        try: t = point_term(build, D(I, a[0]))
+        except Unsupported: return NotImplemented
+        return I.ctx.decide(t == 0)
+    def m_el_eq(I, fr, fn, a):
+        try: x, y = point_term(build, D(I, D(I, a[0]))), point_term(build, D(I, D(I, a[1])))
+        except Unsupported: return NotImplemented
+        return I.ctx.decide(x == y)
     fns = [
+        (r'(Element|AffinePoint)>?::is_identity$', m_is_identity),
+        (r'^<(ark_curve::element::projective::Element|min_curve::element::Element) as ark_ff::Zero>::is_zero$', m_is_identity),
+        (r'^<ark_curve::element::affine::AffinePoint as ark_ec::AffineRepr>::is_zero$', m_is_identity),
+        (r'^<&?(ark_curve::element::projective::Element|ark_curve::element::affine::AffinePoint|min_curve::element::Element) as core::cmp::PartialEq>::eq$', m_el_eq),
         (rf'^<{P} as core::ops::Add(<.*>)?>::add$', m_add), (rf'^<{P} as core::ops::Sub(<.*>)?>::sub$', m_sub),
         (rf'^<{P} as core::ops::Neg>::neg$', m_neg),
         (rf'^<{P} as core::ops::AddAssign(<.*>)?>::add_assign$', m_add_assign), (rf'^<{P} as core::ops::SubAssign(<.*>)?>::sub_assign$', m_sub_assign),
@@ -137,8 +149,9 @@ def point_term(build, v):
     if isinstance(v, Agg) and len(v.fields) == 1 and isinstance(v.fields[0], EP): return v.fields[0].t
     raise Unsupported(f'not a point: {v!r}')
 
-def decide_int_eq(a, b, timeout_ms=20000):
+def decide_int_eq(a, b, timeout_ms=20000, path=()):
     s = z3.Solver(); s.set('timeout', timeout_ms)
+    for c in path: s.add(c)
     s.add(a != b)
     t0 = time.time(); r = s.check(); dt = time.time() - t0
     if r == z3.unsat: return 'unsat', None, dt, s.to_smt2()
@@ -183,7 +196,7 @@ def sweep_operator_forms(build, files):
             else:
                 pt = [x for x in sems if not isinstance(x, FE)]; sc = [x for x in sems if isinstance(x, FE)]
                 want = smul(pt[0], sc[0])
-            ans, model, dt, smt = decide_int_eq(got, want)
+            ans, model, dt, smt = decide_int_eq(got, want, path=r['path'])
             samp = {'got': str(got), 'want': str(want), 'smt2_head': smt[:300]}
             if ans == 'unsat': obs.append(Ob(name, 'proved', f'result = {want}', dt, 'z3 LIA+EUF (free abelian group)', samp))
             elif ans == 'sat': obs.append(Ob(name, 'violated', f'result is {got}, the group law gives {want}', dt, 'z3 LIA+EUF (free abelian group)', samp, {'kind': 'opform', 'where': f'{it.impl_at[0]}:{it.impl_at[1]}', 'header': it.impl_header(), 'z3_model': model}))
@@ -203,7 +216,7 @@ def check_sums_and_named(build):
         for r in recs:
             if 'panic' in r: obs.append(Ob(name, 'violated', 'panics: ' + r['panic'], 0, 'mirsym/G', None, {'kind': 'panic'})); continue
             got = point_term(build, r['result']); want = want_fn()
-            ans, model, dt, smt = decide_int_eq(got, want)
+            ans, model, dt, smt = decide_int_eq(got, want, path=r['path'])
             samp = {'got': str(got), 'want': str(want)}
             if ans == 'unsat': obs.append(Ob(name, 'proved', f'result = {want}', dt, 'z3 LIA+EUF (free abelian group)', samp))
             elif ans == 'sat': obs.append(Ob(name, 'violated', f'result is {got}, expected {want}', dt, 'z3 LIA+EUF (free abelian group)', samp, {'kind': 'named', 'z3_model': model}))
